@@ -239,3 +239,37 @@ Example ex_backoff_run :
   backoff_run (bo_new 2 100 1000) [100; 200; 400; 800; 1000] = [Some 100; Some 200; Some 400; None; None] /\
   dial_starts 0 (bo_new 0 100 1000) [(5, 100); (7, 210); (5, 420)] = [0; 105; 322; 747].
 Proof. vm_compute. repeat split. Qed.
+
+(* ---- which failures are retried *)
+(* a listener never gives up on transient failures: if no dial of the script fails with a non-retryable status the loop is
+   still retrying at the end of the script or has connected - and it dials until the first success *)
+Lemma connect_script_transient rs :
+  (forall r, In r rs -> dial_fatal r = false) ->
+  snd (connect_script rs) <> Some false /\
+  (forall pre post, rs = pre ++ DRConnected :: post -> ~ In DRConnected pre ->
+     connect_script rs = (S (List.length pre), Some true)).
+Proof.
+  induction rs as [|r rest IH]; intros H.
+  - split; [cbn; discriminate|]. intros pre post E. destruct pre; discriminate.
+  - assert (Hr : dial_fatal r = false) by (apply H; left; reflexivity).
+    assert (Hrest : forall x, In x rest -> dial_fatal x = false) by (intros x Hx; apply H; right; exact Hx).
+    destruct (IH Hrest) as [IH1 IH2]. split.
+    + cbn [connect_script]. destruct r; [cbn; discriminate| |]; rewrite Hr; destruct (connect_script rest) as [n o]; exact IH1.
+    + intros pre post E Hn. destruct pre as [|p pre'].
+      * cbn [app] in E. inversion E; subst. reflexivity.
+      * cbn [app] in E. inversion E; subst p rest.
+        assert (Hp : r <> DRConnected) by (intros ->; apply Hn; left; reflexivity).
+        cbn [connect_script]. destruct r; [contradiction| |]; rewrite Hr;
+          rewrite (IH2 pre' post eq_refl (fun HIn => Hn (or_intror HIn))); reflexivity.
+Qed.
+
+(* a non-retryable answer ends the loop at once *)
+Lemma connect_script_fatal r rest : dial_fatal r = true -> connect_script (r :: rest) = (1%nat, Some false).
+Proof. intros H. cbn [connect_script]. destruct r; try discriminate. rewrite H. reflexivity. Qed.
+
+Example ex_retryable :
+  map retryable_status [408; 429; 500; 502; 503; 504; 400; 401; 403; 404; 301; 501; 200] =
+  [true; true; true; true; true; true; false; false; false; false; false; false; false] /\
+  connect_script [DRNoResponse; DRStatus 503; DRStatus 502; DRConnected; DRStatus 401] = (4%nat, Some true) /\
+  connect_script [DRStatus 500; DRStatus 401; DRConnected] = (2%nat, Some false).
+Proof. vm_compute. repeat split. Qed.
